@@ -13,6 +13,9 @@ Spec: specs/ConfResolve.  Binding: harness/confmap (public API: confmap.NewResol
   3. ConfMerge.tla: all lists of <= NSrc small source trees with the specified merge, clauses as invariants.
   4. The Go driver resolves every root / source list through the real resolver and compares: the real result
      (ToStringMap, Unmarshal into string / any / int fields, error or not) must be an admissible result.
+Every expansion case is resolved twice by the driver: as the value of a top-level key (all observations), and at a
+second position chosen from the case id (item of a list next to items that settle sooner / later, below nested maps and
+lists): value / error must again be an admissible outcome of the specification ("EVERY reference is replaced").
 """
 import json, os, threading
 from concurrent.futures import ThreadPoolExecutor
